@@ -39,7 +39,7 @@ EXTENDS ServerMux, Json, TLCExt
 TraceLog == ndJsonDeserialize("trace.ndjson")
 
 TPlan == [k \in Carriers |-> NoPlan]      \* Plan is not used: plans come from car.open events
-TCarriers == 1..48
+TCarriers == 1..64
 TIds == {"S0", "S1", "S2", "S3", "S4", "S5", "S6", "S7"}
 Dirs == {"up", "down"}
 
